@@ -812,7 +812,8 @@ class _FPCore2FPy:
         ctx.props = props
 
         # possibly generate context
-        if 'precision' in props:
+        if 'precision' in props or 'round' in props:
+            # `:round` alone still fixes the context of the body (binary64 by default)
             try:
                 ctx_val: None | Context | FPCoreContext = FPCoreContext(**props).to_context()
             except NoSuchContextError:
